@@ -158,7 +158,17 @@ func TestProp(t *testing.T) {
 		t0 := time.Now()
 		f()
 		r.Count("phase_seconds_"+name, int64(time.Since(t0).Seconds()+0.5))
-		fmt.Fprintf(os.Stderr, "C02 phase %s: %.1fs\n", name, time.Since(t0).Seconds())
+		var ms runtime.MemStats
+		runtime.ReadMemStats(&ms)
+		rss := ""
+		if b, err := os.ReadFile("/proc/self/status"); err == nil {
+			for _, l := range strings.Split(string(b), "\n") {
+				if strings.HasPrefix(l, "VmRSS:") || strings.HasPrefix(l, "VmHWM:") {
+					rss += " " + strings.Join(strings.Fields(l), "")
+				}
+			}
+		}
+		fmt.Fprintf(os.Stderr, "C02 phase %s: %.1fs; go heap in use %d MiB, sys %d MiB;%s\n", name, time.Since(t0).Seconds(), ms.HeapInuse>>20, ms.Sys>>20, rss)
 	}
 	phase("cooperative_schedules", func() { monitorCoop(r) })
 	phase("stress", func() { monitorStress(r) })
@@ -356,7 +366,7 @@ func randomYield(string) {
 func monitorStress(r *vh.Run) {
 	trials := 200000
 	if vh.Thorough() {
-		trials = 2000000
+		trials = 1000000
 	}
 	_, ns := vh.Shard()
 	trials /= ns
@@ -505,42 +515,70 @@ func alphabet(t0 time.Time) ([]sym, []pkey) {
 }
 
 // runHistory executes a symbolic history on a fresh cache inside a bubble and judges it.
-func runHistory(t *testing.T, r *vh.Run, key string, word []sym, keys []pkey, sample bool) {
-	var hist []op
-	var pnc bool
-	var pv, pw string
-	presented := 0
+// histJob is one sequential history: a word over the alphabet.
+type histJob struct {
+	key    string
+	word   []sym
+	sample bool
+}
+
+// runHistories runs a batch of sequential histories inside ONE synctest bubble, each against a fresh cache and with its
+// authenticator timestamps laid out around its own start (the next whole second of the virtual clock). A bubble per history
+// would be simpler, but under the race detector every bubble costs about 20 KB that are never given back: a million
+// histories took 21 GB.
+func runHistories(t *testing.T, r *vh.Run, jobs []histJob) {
+	type res struct {
+		hist      []op
+		pnc       bool
+		pv, pw    string
+		presented int
+	}
+	out := make([]res, len(jobs))
 	pcommon.AtVirtual(t, time.Hour, func() {
-		pnc, pv, pw = vh.Guard(func() {
-			cache := service.VerifNewReplayCache()
-			var clk int64
-			for _, s := range word {
-				switch s.kind {
-				case "A":
-					time.Sleep(s.d)
-					hist = append(hist, op{Kind: "advance", Advance: s.d.String()})
-				case "C":
-					cache.ClearOldEntries(skew)
-					hist = append(hist, op{Kind: "cleanup"})
-				case "P":
-					k := keys[s.k]
-					now := time.Now()
-					ct := k.ctime.Add(time.Duration(k.cusec) * time.Microsecond)
-					if now.Sub(ct) > skew || ct.Sub(now) > skew {
-						hist = append(hist, op{Kind: "skipped-outside-skew", Key: k.String()})
-						continue
+		for ji, j := range jobs {
+			now := time.Now()
+			base := now.Truncate(time.Second).Add(time.Second)
+			time.Sleep(base.Sub(now))
+			_, keys := alphabet(base)
+			o := &out[ji]
+			o.pnc, o.pv, o.pw = vh.Guard(func() {
+				cache := service.VerifNewReplayCache()
+				var clk int64
+				for _, s := range j.word {
+					switch s.kind {
+					case "A":
+						time.Sleep(s.d)
+						o.hist = append(o.hist, op{Kind: "advance", Advance: s.d.String()})
+					case "C":
+						cache.ClearOldEntries(skew)
+						o.hist = append(o.hist, op{Kind: "cleanup"})
+					case "P":
+						k := keys[s.k]
+						now := time.Now()
+						ct := k.ctime.Add(time.Duration(k.cusec) * time.Microsecond)
+						if now.Sub(ct) > skew || ct.Sub(now) > skew {
+							o.hist = append(o.hist, op{Kind: "skipped-outside-skew", Key: k.String()})
+							continue
+						}
+						sn, a := k.auth()
+						clk++
+						c := clk
+						rep := cache.IsReplay(sn, a)
+						clk++
+						o.hist = append(o.hist, op{Kind: "present", Key: k.String(), Replay: rep, Call: c, Return: clk})
+						o.presented++
 					}
-					sn, a := k.auth()
-					clk++
-					c := clk
-					rep := cache.IsReplay(sn, a)
-					clk++
-					hist = append(hist, op{Kind: "present", Key: k.String(), Replay: rep, Call: c, Return: clk})
-					presented++
 				}
-			}
-		})
+			})
+		}
 	})
+	for ji, j := range jobs {
+		o := out[ji]
+		judgeHistory(r, j.key, o.hist, o.pnc, o.pv, o.pw, o.presented, j.sample)
+	}
+}
+
+func judgeHistory(r *vh.Run, key string, hist []op, pnc bool, pv, pw string, presented int, sample bool) {
 	r.Eval(key, presented >= 2)
 	r.Inc("seq_histories")
 	if pnc {
@@ -587,36 +625,50 @@ func monitorHistories(t *testing.T, r *vh.Run) {
 	for i := 0; i < depth; i++ {
 		total *= len(al)
 	}
-	vh.Workers(total, func(i int) {
-		if !r.MineIdx(i) {
-			return
+	const batch = 2000
+	vh.Workers((total+batch-1)/batch, func(b int) {
+		var jobs []histJob
+		for i := b * batch; i < (b+1)*batch && i < total; i++ {
+			if !r.MineIdx(i) {
+				continue
+			}
+			word := make([]sym, depth)
+			v := i
+			var sb strings.Builder
+			for j := 0; j < depth; j++ {
+				word[j] = al[v%len(al)]
+				fmt.Fprintf(&sb, "%d.", v%len(al))
+				v /= len(al)
+			}
+			jobs = append(jobs, histJob{"seq/exh/" + sb.String(), word, i == 4242})
 		}
-		word := make([]sym, depth)
-		v := i
-		var sb strings.Builder
-		for j := 0; j < depth; j++ {
-			word[j] = al[v%len(al)]
-			fmt.Fprintf(&sb, "%d.", v%len(al))
-			v /= len(al)
+		if len(jobs) > 0 {
+			runHistories(t, r, jobs)
 		}
-		runHistory(t, r, "seq/exh/"+sb.String(), word, keys, i == 4242)
 	})
 	r.Exhaustive(fmt.Sprintf("sequential histories of length %d over %d symbols", depth, len(al)))
-	vh.Workers(nrand, func(i int) {
-		if !r.MineIdx(i) {
-			return
-		}
-		rnd := vh.NewRand("c02rand", i)
-		word := make([]sym, rlen)
-		for j := range word {
-			// bias: advances rare so that many presentations fall in one window
-			if rnd.Intn(12) == 0 {
-				word[j] = al[len(keys)+rnd.Intn(4)]
-			} else {
-				word[j] = al[rnd.Intn(len(keys))]
+	const rbatch = 200
+	vh.Workers((nrand+rbatch-1)/rbatch, func(b int) {
+		var jobs []histJob
+		for i := b * rbatch; i < (b+1)*rbatch && i < nrand; i++ {
+			if !r.MineIdx(i) {
+				continue
 			}
+			rnd := vh.NewRand("c02rand", i)
+			word := make([]sym, rlen)
+			for j := range word {
+				// bias: advances rare so that many presentations fall in one window
+				if rnd.Intn(12) == 0 {
+					word[j] = al[len(keys)+rnd.Intn(4)]
+				} else {
+					word[j] = al[rnd.Intn(len(keys))]
+				}
+			}
+			jobs = append(jobs, histJob{fmt.Sprintf("seq/rand/%d", i), word, i == 3})
 		}
-		runHistory(t, r, fmt.Sprintf("seq/rand/%d", i), word, keys, i == 3)
+		if len(jobs) > 0 {
+			runHistories(t, r, jobs)
+		}
 	})
 }
 
